@@ -703,7 +703,8 @@ fn c01_fixed_residuals_from_dirty_scratch() {
 //@ prop: C01
 //@ also: C10
 //@ drives: coding::reset_fixed_lpc_errors, SimdVec::{reset_from_slice, resize, as_ref, as_ref_simd, as_mut_simd}, arrayutils::pack_into_simd_vec
-//@ bound: a block of 5 samples (one 16-lane vector), every 25-bit sample value, scratch buffers holding arbitrary content from a previous 3-sample block (the quick-tier version of c01_fixed_residuals_from_dirty_scratch, which needs > 10 min)
+//@ tier: thorough
+//@ bound: a block of 5 samples (one 16-lane vector), every 25-bit sample value, scratch buffers holding arbitrary content from a previous 3-sample block (meant as the quick-tier version of c01_fixed_residuals_from_dirty_scratch, but it needs > 10 min on a loaded machine as well - five heap-backed SIMD planes - so it runs in the thorough tier; the quick tier covers the SIMD buffer helpers separately: c10_simdvec_*)
 //@ asserts: as c01_fixed_residuals_from_dirty_scratch
 #[kani::proof]
 #[kani::unwind(40)]
